@@ -49,9 +49,52 @@ def lean_int(i: int) -> str:
     return str(i) if i >= 0 else f"({i})"
 
 
+def unwrap_fn(x):
+    """the plain function behind a property / functools.cached_property / staticmethod / classmethod"""
+    for attr in ("fget", "func", "__func__"):
+        f = getattr(x, attr, None)
+        if callable(f):
+            return f
+    return x
+
+
+class _StripNoise(ast.NodeTransformer):
+    """Drop what cannot change behaviour: docstrings / bare string statements and logging calls
+    (`_LOGGER.x(...)`, `logging.x(...)`), so that adding a log line or editing a docstring does not
+    change the extracted literal lists."""
+
+    def visit_Expr(self, node):
+        v = node.value
+        if isinstance(v, ast.Constant) and isinstance(v.value, str):
+            return ast.Pass()
+        if isinstance(v, ast.Call):
+            f = v.func
+            if isinstance(f, ast.Attribute) and isinstance(f.value, ast.Name) and f.value.id in ("_LOGGER", "logging", "LOGGER"):
+                return ast.Pass()
+        return self.generic_visit(node)
+
+
+class _InlineIntNames(ast.NodeTransformer):
+    """Replace a bare name that is bound to an int in the function's module globals (a named constant such as
+    `MAX_SIZE = 8191`) by that int, so that naming a literal does not change the extracted literal lists."""
+
+    def __init__(self, glob):
+        self.glob = glob
+
+    def visit_Name(self, node):
+        v = self.glob.get(node.id)
+        if isinstance(node.ctx, ast.Load) and isinstance(v, int) and not isinstance(v, bool):
+            return ast.copy_location(ast.Constant(value=int(v)), node)
+        return node
+
+
 def func_ast(obj) -> ast.AST:
     src = textwrap.dedent(inspect.getsource(obj))
-    return ast.parse(src)
+    tree = _StripNoise().visit(ast.parse(src))
+    glob = getattr(inspect.unwrap(obj), "__globals__", None)
+    if glob:
+        tree = _InlineIntNames(glob).visit(tree)
+    return ast.fix_missing_locations(tree)
 
 
 def int_consts(tree: ast.AST, pred=lambda n, parent: True):
@@ -75,10 +118,10 @@ def str_consts(tree: ast.AST):
     return [v for _, _, v in res]
 
 
-def one(xs, what, problems, default=0):
+def one(xs, what, problems, name, default=0):
     xs = list(xs)
     if len(xs) != 1:
-        problems.append(f"{what}: expected exactly one literal, found {xs}")
+        problems.append(f"{name}: {what}: expected exactly one literal, found {xs}")
         return xs[0] if xs else default
     return xs[0]
 
@@ -98,6 +141,26 @@ def except_names(func) -> list[str]:
     return names
 
 
+class _guard:
+    """A section of the generator: an exception inside it (an attribute the changed source no longer has, a
+    function whose source cannot be read, ...) is recorded as a translator problem and the rest of the section is
+    skipped; the Lean files that use the missing definitions then fail to build, so exactly the properties that
+    depend on the section stop being shown - and the check goes on to search for a failing input instead of
+    giving up with a tool failure."""
+
+    def __init__(self, problems, name):
+        self.problems, self.name = problems, name
+
+    def __enter__(self):
+        return self
+
+    def __exit__(self, et, ev, tb):
+        if et is not None and issubclass(et, Exception):
+            self.problems.append(f"section_{self.name}: {et.__name__}: {ev}")
+            return True
+        return False
+
+
 def generate() -> tuple[str, list[str]]:
     sys.path.insert(0, REPO)
     for m in list(sys.modules):
@@ -111,127 +174,138 @@ def generate() -> tuple[str, list[str]]:
     emit("")
 
     # ---------------------------------------------------------------- fastframecheck
-    ffc = importlib.import_module("han.fastframecheck")
-    F = ffc.FastFrameCheckSequence16
-    emit(f"def fcsTable : List Nat := {lean_nat_list(F.fast_frame_check_crc_table)}")
-    emit(f"def fcsInit : Nat := {int(F.INIT_FCS_16)}")
-    emit(f"def fcsGood : Nat := {int(F.GOOD_FCS_16)}")
-    t = func_ast(ffc._compute_fcs_16_crc_table)
-    poly = [v for v in int_consts(t) if v > 256]
-    emit(f"def fcsPoly : Nat := {one(poly, 'fcs polynomial literal', problems)}")
-    t = func_ast(F.checksum.fget)
-    emit(f"def fcsComplement : Nat := {one(int_consts(t), 'fcs complement literal', problems)}")
-    t = func_ast(F._next)
-    emit(f"def fcsNextLiterals : List Nat := {lean_nat_list(int_consts(t))}")
-    t = func_ast(F.compute_checksum)
-    emit(f"def fcsComputeLiterals : List Nat := {lean_nat_list(int_consts(t))}")
-    emit("")
+    with _guard(problems, "fastframecheck"):
+        ffc = importlib.import_module("han.fastframecheck")
+        F = ffc.FastFrameCheckSequence16
+        emit(f"def fcsTable : List Nat := {lean_nat_list(F.fast_frame_check_crc_table)}")
+        emit(f"def fcsInit : Nat := {int(F.INIT_FCS_16)}")
+        emit(f"def fcsGood : Nat := {int(F.GOOD_FCS_16)}")
+        t = func_ast(ffc._compute_fcs_16_crc_table)
+        poly = [v for v in int_consts(t) if v > 256]
+        emit(f"def fcsPoly : Nat := {one(poly, 'fcs polynomial literal', problems, 'fcsPoly')}")
+        t = func_ast(unwrap_fn(F.checksum))
+        emit(f"def fcsComplement : Nat := {one(int_consts(t), 'fcs complement literal', problems, 'fcsComplement')}")
+        t = func_ast(F._next)
+        emit(f"def fcsNextLiterals : List Nat := {lean_nat_list(int_consts(t))}")
+        t = func_ast(F.compute_checksum)
+        emit(f"def fcsComputeLiterals : List Nat := {lean_nat_list(int_consts(t))}")
+        emit("")
 
     # ---------------------------------------------------------------- hdlc
-    hdlc = importlib.import_module("han.hdlc")
-    emit(f"def maxFrameLen : Nat := {int(hdlc.HdlcFrame.MAX_FRAME_LENGTH)}")
-    emit(f"def escOctet : Nat := {int(hdlc.HdlcFrameReader.CONTROL_ESCAPE)}")
-    emit(f"def flagOctet : Nat := {int(hdlc.HdlcFrameReader.FLAG_SEQUENCE)}")
-    t = func_ast(hdlc.HdlcFrameReader._append_to_frame)
-    emit(f"def escXor : Nat := {one(int_consts(t), 'escape xor literal', problems)}")
-    H = hdlc.HdlcFrameHeader
-    emit(f"def hdlcFrameLengthLiterals : List Nat := {lean_nat_list(int_consts(func_ast(H.frame_length.fget)))}")
-    emit(f"def hdlcFrameFormatLiterals : List Nat := {lean_nat_list(int_consts(func_ast(H.frame_format.fget)))}")
-    emit(f"def hdlcHeaderUpdateLiterals : List Nat := {lean_nat_list(int_consts(func_ast(H.update)))}")
-    emit(f"def hdlcGetAddressLiterals : List Nat := {lean_nat_list(int_consts(func_ast(H._get_address)))}")
-    emit(f"def hdlcDestLiterals : List Nat := {lean_nat_list(int_consts(func_ast(H.destination_address.fget)))}")
-    emit(f"def hdlcSrcLiterals : List Nat := {lean_nat_list(int_consts(func_ast(H.source_address.fget)))}")
-    emit(f"def hdlcCtlPosLiterals : List Nat := {lean_nat_list(int_consts(func_ast(H._get_control_field_position)))}")
-    emit(f"def hdlcHcsLiterals : List Nat := {lean_nat_list(int_consts(func_ast(H.header_check_sequence.fget)))}")
-    emit(f"def hdlcInfoPosLiterals : List Nat := {lean_nat_list(int_consts(func_ast(H.information_position.fget)))}")
-    emit(f"def hdlcFcsFieldLiterals : List Nat := {lean_nat_list(int_consts(func_ast(hdlc.HdlcFrame.frame_check_sequence.fget)))}")
-    emit(f"def hdlcPayloadLiterals : List Nat := {lean_nat_list(int_consts(func_ast(hdlc.HdlcFrame.payload.fget)))}")
-    emit(f"def hdlcHandleFlagLiterals : List Nat := {lean_nat_list(int_consts(func_ast(hdlc.HdlcFrameReader._handle_flag_sequence)))}")
-    emit("")
+    with _guard(problems, "hdlc"):
+        hdlc = importlib.import_module("han.hdlc")
+        emit(f"def maxFrameLen : Nat := {int(hdlc.HdlcFrame.MAX_FRAME_LENGTH)}")
+        emit(f"def escOctet : Nat := {int(hdlc.HdlcFrameReader.CONTROL_ESCAPE)}")
+        emit(f"def flagOctet : Nat := {int(hdlc.HdlcFrameReader.FLAG_SEQUENCE)}")
+        t = func_ast(hdlc.HdlcFrameReader._append_to_frame)
+        emit(f"def escXor : Nat := {one(int_consts(t), 'escape xor literal', problems, 'escXor')}")
+        H = hdlc.HdlcFrameHeader
+        emit(f"def hdlcFrameLengthLiterals : List Nat := {lean_nat_list(int_consts(func_ast(unwrap_fn(H.frame_length))))}")
+        emit(f"def hdlcFrameFormatLiterals : List Nat := {lean_nat_list(int_consts(func_ast(unwrap_fn(H.frame_format))))}")
+        emit(f"def hdlcHeaderUpdateLiterals : List Nat := {lean_nat_list(int_consts(func_ast(H.update)))}")
+        emit(f"def hdlcGetAddressLiterals : List Nat := {lean_nat_list(int_consts(func_ast(H._get_address)))}")
+        emit(f"def hdlcDestLiterals : List Nat := {lean_nat_list(int_consts(func_ast(unwrap_fn(H.destination_address))))}")
+        emit(f"def hdlcSrcLiterals : List Nat := {lean_nat_list(int_consts(func_ast(unwrap_fn(H.source_address))))}")
+        emit(f"def hdlcCtlPosLiterals : List Nat := {lean_nat_list(int_consts(func_ast(H._get_control_field_position)))}")
+        emit(f"def hdlcHcsLiterals : List Nat := {lean_nat_list(int_consts(func_ast(unwrap_fn(H.header_check_sequence))))}")
+        emit(f"def hdlcInfoPosLiterals : List Nat := {lean_nat_list(int_consts(func_ast(unwrap_fn(H.information_position))))}")
+        emit(f"def hdlcFcsFieldLiterals : List Nat := {lean_nat_list(int_consts(func_ast(unwrap_fn(hdlc.HdlcFrame.frame_check_sequence))))}")
+        emit(f"def hdlcPayloadLiterals : List Nat := {lean_nat_list(int_consts(func_ast(unwrap_fn(hdlc.HdlcFrame.payload))))}")
+        emit(f"def hdlcHandleFlagLiterals : List Nat := {lean_nat_list(int_consts(func_ast(hdlc.HdlcFrameReader._handle_flag_sequence)))}")
+        emit("")
 
     # ---------------------------------------------------------------- dlde
-    dlde = importlib.import_module("han.dlde")
-    emit(f"def p1Start : Nat := {int(dlde.START_CHARACTER_HEX)}")
-    emit(f"def p1End : Nat := {int(dlde.END_CHARACTER_HEX)}")
-    emit(f"def p1Lf : Nat := {int(dlde.LF_CHARACTER)}")
-    t = func_ast(dlde.ModeDReader.read)
-    emit(f"def p1Guard : Nat := {one([v for v in int_consts(t) if v > 1], 'P1 size guard literal', problems)}")
-    t = func_ast(dlde.DataReadout._calculate_crc16)
-    emit(f"def crc16Poly : Nat := {one([v for v in int_consts(t) if v > 256], 'crc16 polynomial literal', problems)}")
-    emit(f"def crc16Literals : List Nat := {lean_nat_list(int_consts(t))}")
-    t = func_ast(dlde.DataReadout.is_valid.fget)
-    emit(f"def p1IsValidLiterals : List Nat := {lean_nat_list(int_consts(t))}")
-    emit(f"def p1ExpectedChecksumLiterals : List Nat := {lean_nat_list(int_consts(func_ast(dlde.DataReadout.expected_checksum.fget)))}")
-    emit(f"def identPatternSrc : String := {lean_str(dlde._ident_pattern.pattern)}")
-    emit(f"def p1DatetimeLiterals : List Nat := {lean_nat_list(int_consts(func_ast(dlde._parse_p1_datetime)))}")
-    t = func_ast(dlde._decode_parsed)
-    emit(f"def p1DecodeLiterals : List Nat := {lean_nat_list(int_consts(t))}")
-    emit("def p1DecodeStrings : List String := [" + ", ".join(lean_str(s) for s in str_consts(t)) + "]")
-    emit("")
+    with _guard(problems, "dlde"):
+        dlde = importlib.import_module("han.dlde")
+        emit(f"def p1Start : Nat := {int(dlde.START_CHARACTER_HEX)}")
+        emit(f"def p1End : Nat := {int(dlde.END_CHARACTER_HEX)}")
+        emit(f"def p1Lf : Nat := {int(dlde.LF_CHARACTER)}")
+        t = func_ast(dlde.ModeDReader.read)
+        emit(f"def p1Guard : Nat := {one([v for v in int_consts(t) if v > 255], 'P1 size guard literal', problems, 'p1Guard')}")
+        t = func_ast(dlde.DataReadout._calculate_crc16)
+        emit(f"def crc16Poly : Nat := {one([v for v in int_consts(t) if v > 256], 'crc16 polynomial literal', problems, 'crc16Poly')}")
+        emit(f"def crc16Literals : List Nat := {lean_nat_list(int_consts(t))}")
+        t = func_ast(unwrap_fn(dlde.DataReadout.is_valid))
+        emit(f"def p1IsValidLiterals : List Nat := {lean_nat_list(int_consts(t))}")
+        emit(f"def p1ExpectedChecksumLiterals : List Nat := {lean_nat_list(int_consts(func_ast(unwrap_fn(dlde.DataReadout.expected_checksum))))}")
+        emit(f"def identPatternSrc : String := {lean_str(dlde._ident_pattern.pattern)}")
+        emit(f"def p1DatetimeLiterals : List Nat := {lean_nat_list(int_consts(func_ast(dlde._parse_p1_datetime)))}")
+        t = func_ast(dlde._decode_parsed)
+        emit(f"def p1DecodeLiterals : List Nat := {lean_nat_list(int_consts(t))}")
+        emit("def p1DecodeStrings : List String := [" + ", ".join(lean_str(s) for s in str_consts(t)) + "]")
+        emit("")
 
     # ---------------------------------------------------------------- obis
-    obis = importlib.import_module("han.obis")
-    emit(f"def obisReducedPatternSrc : String := {lean_str(obis.REDUCED_OBIS_PATTERN)}")
-    emit(f"def obisStandardPatternSrc : String := {lean_str(obis.STANDARD_OBIS_PATTERN)}")
-    emit(f"def obisBothPatternSrc : String := {lean_str(obis.OBIS_PATTERN_BOTH)}")
-    emit(f"def obisCompiledPatternSrc : String := {lean_str(obis._obis_pattern.pattern)}")
-    emit("")
+    with _guard(problems, "obis"):
+        obis = importlib.import_module("han.obis")
+        emit(f"def obisReducedPatternSrc : String := {lean_str(obis.REDUCED_OBIS_PATTERN)}")
+        emit(f"def obisStandardPatternSrc : String := {lean_str(obis.STANDARD_OBIS_PATTERN)}")
+        emit(f"def obisBothPatternSrc : String := {lean_str(obis.OBIS_PATTERN_BOTH)}")
+        emit(f"def obisCompiledPatternSrc : String := {lean_str(obis._obis_pattern.pattern)}")
+        emit("")
 
     # ---------------------------------------------------------------- obis_map
-    om = importlib.import_module("han.obis_map")
-    pairs = sorted(om.obis_name_map.items())
-    emit("def obisNameMap : List (String × String) := [" + ", ".join(f"({lean_str(k)}, {lean_str(v)})" for k, v in pairs) + "]")
-    for nm in sorted(n for n in dir(om) if n.startswith("FIELD_")):
-        emit(f"def {nm[0].lower() + nm[1:]} : String := {lean_str(getattr(om, nm))}".replace("fIELD_", "field_"))
-    emit("")
+    with _guard(problems, "obis_map"):
+        om = importlib.import_module("han.obis_map")
+        pairs = sorted(om.obis_name_map.items())
+        emit("def obisNameMap : List (String × String) := [" + ", ".join(f"({lean_str(k)}, {lean_str(v)})" for k, v in pairs) + "]")
+        for nm in sorted(n for n in dir(om) if n.startswith("FIELD_")):
+            emit(f"def {nm[0].lower() + nm[1:]} : String := {lean_str(getattr(om, nm))}".replace("fIELD_", "field_"))
+        emit("")
 
     # ---------------------------------------------------------------- cosem
-    cosem = importlib.import_module("han.cosem")
-    def enum_pairs(e):
-        return sorted((str(k), int(v)) for k, v in e.encmapping.items())
-    emit("def cosemTypes : List (String × Nat) := [" + ", ".join(f"({lean_str(k)}, {v})" for k, v in enum_pairs(cosem.CommonDataTypes)) + "]")
-    emit("def cosemUnits : List (String × Nat) := [" + ", ".join(f"({lean_str(k)}, {v})" for k, v in enum_pairs(cosem.PhysicalUnits)) + "]")
-    emit("def apduTags : List (String × Nat) := [" + ", ".join(f"({lean_str(k)}, {v})" for k, v in enum_pairs(cosem.ApduTag)) + "]")
-    emit("")
+    with _guard(problems, "cosem"):
+        cosem = importlib.import_module("han.cosem")
+        def enum_pairs(e):
+            return sorted((str(k), int(v)) for k, v in e.encmapping.items())
+        emit("def cosemTypes : List (String × Nat) := [" + ", ".join(f"({lean_str(k)}, {v})" for k, v in enum_pairs(cosem.CommonDataTypes)) + "]")
+        emit("def cosemUnits : List (String × Nat) := [" + ", ".join(f"({lean_str(k)}, {v})" for k, v in enum_pairs(cosem.PhysicalUnits)) + "]")
+        emit("def apduTags : List (String × Nat) := [" + ", ".join(f"({lean_str(k)}, {v})" for k, v in enum_pairs(cosem.ApduTag)) + "]")
+        emit("")
 
     # ---------------------------------------------------------------- kaifa
-    kaifa = importlib.import_module("han.kaifa")
-    emit("def kaifaFieldLists : List (List String) := [" + ", ".join("[" + ", ".join(lean_str(x) for x in lst) + "]" for lst in kaifa._field_order_lists) + "]")
-    emit("def kaifaScaling : List (String × Int) := [" + ", ".join(f"({lean_str(k)}, {lean_int(v)})" for k, v in sorted(kaifa._FIELD_SCALING.items())) + "]")
-    emit("")
+    with _guard(problems, "kaifa"):
+        kaifa = importlib.import_module("han.kaifa")
+        emit("def kaifaFieldLists : List (List String) := [" + ", ".join("[" + ", ".join(lean_str(x) for x in lst) + "]" for lst in kaifa._field_order_lists) + "]")
+        emit("def kaifaScaling : List (String × Int) := [" + ", ".join(f"({lean_str(k)}, {lean_int(v)})" for k, v in sorted(kaifa._FIELD_SCALING.items())) + "]")
+        emit("")
 
     # ---------------------------------------------------------------- kamstrup
-    kam = importlib.import_module("han.kamstrup")
-    emit("def kamScalingStd : List (String × Int) := [" + ", ".join(f"({lean_str(k)}, {lean_int(v)})" for k, v in sorted(kam._field_scaling_standard.items())) + "]")
-    emit("def kamScalingCt : List (String × Int) := [" + ", ".join(f"({lean_str(k)}, {lean_int(v)})" for k, v in sorted(kam._field_scaling_ct_meter.items())) + "]")
-    t = func_ast(kam._normalize_parsed_items)
-    emit("def kamNormalizeStrings : List String := [" + ", ".join(lean_str(s) for s in str_consts(t)) + "]")
-    emit(f"def kamNormalizeLiterals : List Nat := {lean_nat_list(int_consts(t))}")
-    emit("")
+    with _guard(problems, "kamstrup"):
+        kam = importlib.import_module("han.kamstrup")
+        emit("def kamScalingStd : List (String × Int) := [" + ", ".join(f"({lean_str(k)}, {lean_int(v)})" for k, v in sorted(kam._field_scaling_standard.items())) + "]")
+        emit("def kamScalingCt : List (String × Int) := [" + ", ".join(f"({lean_str(k)}, {lean_int(v)})" for k, v in sorted(kam._field_scaling_ct_meter.items())) + "]")
+        t = func_ast(kam._normalize_parsed_items)
+        emit("def kamNormalizeStrings : List String := [" + ", ".join(lean_str(s) for s in str_consts(t)) + "]")
+        emit(f"def kamNormalizeLiterals : List Nat := {lean_nat_list(int_consts(t))}")
+        emit("")
 
     # ---------------------------------------------------------------- aidon
-    aidon = importlib.import_module("han.aidon")
-    t = func_ast(aidon._normalize_parsed_items)
-    emit("def aidonNormalizeStrings : List String := [" + ", ".join(lean_str(s) for s in str_consts(t)) + "]")
-    emit("")
+    with _guard(problems, "aidon"):
+        aidon = importlib.import_module("han.aidon")
+        t = func_ast(aidon._normalize_parsed_items)
+        emit("def aidonNormalizeStrings : List String := [" + ", ".join(lean_str(s) for s in str_consts(t)) + "]")
+        emit("")
 
     # ---------------------------------------------------------------- autodecoder
-    ad = importlib.import_module("han.autodecoder")
-    emit("def decoderOrder : List String := [" + ", ".join(lean_str(n) for n, _ in ad.AutoDecoder.payload_decoder_functions) + "]")
-    emit("def caughtPayload : List String := [" + ", ".join(lean_str(n) for n in except_names(ad.AutoDecoder.decode_message_payload)) + "]")
-    emit("def caughtMessage : List String := [" + ", ".join(lean_str(n) for n in except_names(ad.AutoDecoder.decode_message)) + "]")
-    emit("")
+    with _guard(problems, "autodecoder"):
+        ad = importlib.import_module("han.autodecoder")
+        emit("def decoderOrder : List String := [" + ", ".join(lean_str(n) for n, _ in ad.AutoDecoder.payload_decoder_functions) + "]")
+        emit("def caughtPayload : List String := [" + ", ".join(lean_str(n) for n in except_names(ad.AutoDecoder.decode_message_payload)) + "]")
+        emit("def caughtMessage : List String := [" + ", ".join(lean_str(n) for n in except_names(ad.AutoDecoder.decode_message)) + "]")
+        emit("")
 
     # ---------------------------------------------------------------- meter_connection
-    mc = importlib.import_module("han.meter_connection")
-    emit(f"def defaultMaxDelay : Nat := {int(mc.BackOffStrategy.DEFAULT_MAX_DELAY_SEC)}")
-    emit(f"def defaultLostThreshold : Nat := {int(mc.ConnectionManager.DEFAULT_CONNECTION_LOST_BACK_OFF_THRESHOLD)}")
-    emit(f"def defaultLostSleep : Nat := {int(mc.ConnectionManager.DEFAULT_CONNECTION_LOST_BACK_OFF_SLEEP_SEC)}")
-    emit(f"def backoffFailureLiterals : List Nat := {lean_nat_list(int_consts(func_ast(mc.ExponentialBackOff.failure)))}")
-    emit(f"def backoffResetLiterals : List Nat := {lean_nat_list(int_consts(func_ast(mc.ExponentialBackOff.reset)))}")
-    emit(f"def backoffInitLiterals : List Nat := {lean_nat_list(int_consts(func_ast(mc.ExponentialBackOff.__init__)))}")
-    emit(f"def getBackOffTimeLiterals : List Nat := {lean_nat_list(int_consts(func_ast(mc.ConnectionManager._get_back_off_time)))}")
-    emit("")
+    with _guard(problems, "meter_connection"):
+        mc = importlib.import_module("han.meter_connection")
+        emit(f"def defaultMaxDelay : Nat := {int(mc.BackOffStrategy.DEFAULT_MAX_DELAY_SEC)}")
+        emit(f"def defaultLostThreshold : Nat := {int(mc.ConnectionManager.DEFAULT_CONNECTION_LOST_BACK_OFF_THRESHOLD)}")
+        emit(f"def defaultLostSleep : Nat := {int(mc.ConnectionManager.DEFAULT_CONNECTION_LOST_BACK_OFF_SLEEP_SEC)}")
+        emit(f"def backoffFailureLiterals : List Nat := {lean_nat_list(int_consts(func_ast(mc.ExponentialBackOff.failure)))}")
+        emit(f"def backoffResetLiterals : List Nat := {lean_nat_list(int_consts(func_ast(mc.ExponentialBackOff.reset)))}")
+        emit(f"def backoffInitLiterals : List Nat := {lean_nat_list(int_consts(func_ast(mc.ExponentialBackOff.__init__)))}")
+        emit(f"def getBackOffTimeLiterals : List Nat := {lean_nat_list(int_consts(func_ast(mc.ConnectionManager._get_back_off_time)))}")
+        emit("")
     emit("def extractionProblems : List String := [" + ", ".join(lean_str(p) for p in problems) + "]")
     emit("")
     emit("end Amshan.Gen")
